@@ -50,8 +50,13 @@ func plan(prop, tier string) []Part {
 			{Name: "err", N: q(tier, 200, 4000), Chunk: 40, Procs: []int{2, 16, 4, 1}, Timeout: to},
 			{Name: "waiters", N: q(tier, 400, 8000), Chunk: 40, Procs: []int{16, 4, 8}, Timeout: to},
 		}
-	case "C03", "C13":
+	case "C03":
 		return []Part{{Name: "mixed", N: q(tier, 800, 16000), Chunk: 40, Procs: []int{2, 16, 4, 1}, Timeout: to}}
+	case "C13":
+		return []Part{
+			{Name: "mixed", N: q(tier, 800, 16000), Chunk: 40, Procs: []int{2, 16, 4, 1}, Timeout: to},
+			{Name: "err", N: q(tier, 200, 4000), Chunk: 40, Procs: []int{2, 16, 4, 1}, Timeout: to},
+		}
 	case "C14":
 		return []Part{
 			{Name: "mixed", N: q(tier, 800, 16000), Chunk: 40, Procs: []int{2, 16, 4, 1}, Timeout: to},
@@ -125,11 +130,11 @@ func plan(prop, tier string) []Part {
 		}
 	case "C09":
 		ps := []Part{
-			{Name: "exh3", N: 20, Chunk: 1, Timeout: to},
+			{Name: "exh3", N: 21, Chunk: 1, Timeout: to}, // one chunk per first letter of the 21-letter alphabet
 			{Name: "random", N: q(tier, 16, 2000), Chunk: 1, Timeout: to},
 		}
 		if tier == "thorough" {
-			ps = append(ps, Part{Name: "exh4", N: 20, Chunk: 1, Timeout: 30 * time.Minute})
+			ps = append(ps, Part{Name: "exh4", N: 21, Chunk: 1, Timeout: 30 * time.Minute})
 		}
 		return ps
 	case "C07":
